@@ -54,7 +54,7 @@ Print Assumptions C24_textx_memo_class.
 Theorem C24_rel_sound : forall g1 g2 ne R input orc,
   orc_nonempty ne orc ->
   frame_ok g1 g2 R = true ->
-  (forall p, In p R -> local_ok g1 g2 ne R p = true \/ sem_ok g1 g2 ne input orc p) ->
+  (forall p, In p R -> local_ok g1 g2 ne false [] R p = true \/ sem_ok g1 g2 ne input orc p) ->
   forall cfg f1 f2, outcome_rel (run g1 cfg orc false f1 input) (run g2 cfg orc false f2 input).
 Proof. exact rel_sound. Qed.
 Print Assumptions C24_rel_sound.
@@ -130,7 +130,7 @@ Print Assumptions C24_nonvacuous_memo.
 (* the traversal of the textX pair covers 160+ pairs of parsing expressions, 13 of them accepted differences *)
 Example C24_textx_pairs :
   frame_ok lang_grammar tx_grammar textx_R = true /\
-  forallb (fun p => local_ok lang_grammar tx_grammar textx_ne textx_R p || accepted_pair p) textx_R = true /\
+  forallb (fun p => local_ok lang_grammar tx_grammar textx_ne false [] textx_R p || accepted_pair p) textx_R = true /\
   140 <= length textx_R /\ length (filter accepted_pair textx_R) <= 13.
 Proof. vm_compute. repeat split; repeat constructor. Qed.
 Print Assumptions C24_textx_pairs.
